@@ -51,7 +51,7 @@ CATALOGUE = [
     ("optimizer_no_copy", "C10", "optimization/optimizer.py", "self._parameters = scheme.parameters.copy()", "self._parameters = scheme.parameters", 1),
     ("on_index_parallel", "C10", "builtin/megacomplexes/decay/decay_matrix_gaussian_irf.py", "@nb.jit(nopython=True, parallel=False)\ndef calculate_decay_matrix_gaussian_irf_on_index(", "@nb.jit(nopython=True, parallel=True)\ndef calculate_decay_matrix_gaussian_irf_on_index(", 1),
     ("exp_dropped", "C11", "parameter/parameter.py", "self.value = np.exp(value) if self.non_negative else value", "self.value = value", 1),
-    ("vary_ignored", "C11", "parameter/parameters.py", "if not exclude_non_vary or parameter.vary:", "if True:", 1),
+    ("vary_ignored", "C11", "parameter/parameters.py", "if not exclude_non_vary or (parameter.vary and parameter.expression is None):", "if True:", 1),
     ("expression_single_pass", "C12", "parameter/parameters.py", "            for match in PARAMETER_EXPRESSION_REGEX.findall(parameter.expression):\n                if self.has(match[0]):\n                    update(self.get(match[0]))\n", "", 1),
     ("additional_penalty_of_last_call", "C13", "optimization/optimizer.py", '        full_penalty = self.calculate_penalty()\n        result_args["cost"] = 0.5 * np.dot(full_penalty, full_penalty)\n\n        result_args["additional_penalty"] = [\n            group.get_additional_penalties() for group in self._optimization_groups\n        ]\n', '        result_args["additional_penalty"] = [\n            group.get_additional_penalties() for group in self._optimization_groups\n        ]\n\n        full_penalty = self.calculate_penalty()\n        result_args["cost"] = 0.5 * np.dot(full_penalty, full_penalty)\n', 1),
     ("latest_lookup_deletes_whole_name", "C18", "project/project.py", '        result_name = re.sub(r"_run_\\d{4}$", "", result_name)\n        return self.get_result_path(result_name, latest=True)', '        result_name = re.sub(self._result_registry.result_pattern, "", result_name)\n        return self.get_result_path(result_name, latest=True)', 1),
